@@ -304,8 +304,81 @@ def validate_small(ctx):
     _cmp(ctx, "pgen.small", reqs, wants)
 
 
+# ------------------------------------------------------------------ _parse_numeric_token
+FRAGS = ["2003", "03", "9", "25", "10", "1999", "99", "31", "12", "13", "00", "0", "59", "100", "101", "7",
+         "20030925", "200309251041", "20030925104159", "990925", "104159", "104159.5", "104159.123456", "1041", "23", "2359",
+         "10.5", "10.59", "1.5", "36.5", "0.5", "12345", "1234567", "123456789", "1" * 30, "٢٥", "٢٠٠٣", "1².5"]
+SEPS = ["-", "/", ".", ":", " ", ",", "T", " ", " ", "-", ":"]
+WORDS2 = ["h", "m", "s", "hours", "min", "sec", "am", "pm", "AM", "a", "p", "Sep", "sept", "January", "of", "at", "Thu", "UTC",
+          "Z", "x", "foo", "and", "th", "ad"]
+YMD_STATES = [([], 0, None, None, None), ([], 0, None, None, None), ([2003], 1, None, None, 0), ([9], 0, None, 0, None),
+              ([25], 0, None, None, None), ([2003, 9], 1, None, 1, 0), ([25, 9], 0, None, 1, None), ([9, 25], 0, None, 0, None),
+              ([2003, 9, 25], 1, None, None, 0), ([25, 9, 3], 0, None, 1, None), ([1, 2, 3], 0, None, None, None),
+              ([2, 2000], 1, None, 0, 1), ([13], 0, None, 0, None), ([4], 0, 0, None, None), ([1, 2, 3, 4], 0, None, None, None)]
+
+
+TEMPLATES = ["%s:%s", "%s:%s:%s", "%s:%s:%s.%s", "%s:%s.%s", "%s-%s-%s", "%s/%s/%s", "%s-%s", "%s/%s", "%s-Sep-%s", "%s-sept",
+             "%s/Jan/%s", "%s-%s-Jan", "%s-foo-%s", "%s- %s", "%s %s", "%s h %s m", "%sh%sm%ss", "%s h", "%s m %s", "h%s", "m %s",
+             "%s am", "%sam", "%s pm %s", "%s of %s", "%s, %s", "%s.%s.%s", "%s %s:%s", "%sT%s", "%s-%s-%s %s:%s:%s", "%s:%s:",
+             "%s:", "%s-", "%s:%s:x", "%s-%s-", "%s x"]
+
+
+def gen_numtok_case(rng, info):
+    from dateutil.parser import _parser as P
+    parts = []
+    if rng.random() < 0.5:
+        t = rng.choice(TEMPLATES)
+        small = [f for f in FRAGS if len(f) <= 4]
+        parts = [t % tuple(rng.choice(small if rng.random() < 0.8 else FRAGS) for _ in range(t.count("%s")))]
+        if rng.random() < 0.3:
+            parts.insert(0, rng.choice(["", "x ", "Sep ", "10 "]))
+    for _ in range(rng.randrange(1, 7) if not parts else 0):
+        r = rng.random()
+        parts.append(rng.choice(FRAGS) if r < 0.5 else rng.choice(SEPS) if r < 0.8 else _word(rng, info) if r < 0.9 else rng.choice(WORDS2))
+    if rng.random() < 0.5 or len(parts) <= 2:
+        toks = P._timelex.split("".join(parts))
+    else:
+        toks = [t for t in parts if t != ""]
+    nums = [i for i, t in enumerate(toks) if t and (t[0].isdigit() or t[0] == ".")]
+    if not nums or not toks:
+        toks = toks + [rng.choice(FRAGS)]
+        nums = [len(toks) - 1]
+    idx = rng.choice(nums) if rng.random() < 0.93 else rng.randrange(0, len(toks))
+    return toks, idx
+
+
+def validate_numtok(ctx):
+    from dateutil.parser import _parser as P
+    rng = ctx.subrng("pgen.numtok")
+    n = ctx.budget(700, 4000)
+    reqs, wants = [], []
+    for info, custom in _infos():
+        iw = _iw(info, custom)
+        p = P.parser(info)
+        for _ in range(n):
+            toks, idx = gen_numtok_case(rng, info)
+            vals, cent, d, m, y = rng.choice(YMD_STATES)
+            hour = rng.choice([None, None, None, 10])
+            fz = rng.random() < 0.3
+            text = "".join(toks)
+            reqs.append("pgen.numtok %s %d %d %s %s %s|%d|%s|%s|%s %s" % (
+                iw, fz, idx, ";".join(L.cps(t) for t in toks), L.classes(text), ",".join(map(str, vals)), cent, _oi(d), _oi(m),
+                _oi(y), _oi(hour)))
+            def run():
+                ymd = P._ymd()
+                list.extend(ymd, vals)
+                ymd.century_specified, ymd.dstridx, ymd.mstridx, ymd.ystridx = bool(cent), d, m, y
+                res = P.parser._result()
+                res.hour = hour
+                j = p._parse_numeric_token(list(toks), idx, info, ymd, res, fz)
+                return "%d ; %s ; %s" % (j, _state(ymd), " ".join(_oi(x) for x in (res.hour, res.minute, res.second, res.microsecond)))
+            wants.append(_r(run, str))
+    _cmp(ctx, "pgen.numtok", reqs, wants)
+
+
 def validate(ctx):
     """run every `pgen.*` validation (called from the correspondence of C14)"""
     validate_ymd(ctx)
     validate_info(ctx)
     validate_small(ctx)
+    validate_numtok(ctx)
